@@ -15,9 +15,10 @@ early return to the verbatim path (search only, see DESIGN §5 C04).
 Statements that are false of the code carry `_counterexample`; the version that holds carries
 `_partial` and names the excluding hypothesis.  Findings recorded here:
   * F14  `cfg_attr` with three or more arguments is not recognised.
-  * F2   the recorded skipped range mixes source and output line numbers; it is right only when the
-         text did not move *and* the visitor's buffer is the file's buffer (a nested visitor, e.g.
-         the one that formats an `impl` body, counts its lines from 0).
+  * F2   (cured at top level by /repo ed625bc, which this model follows) the recorded skipped range
+         is now in lines of the visitor's own buffer; it is still wrong for the *file* when the
+         visitor is a nested one (e.g. the one that formats an `impl` body counts its lines
+         from 0, and its ranges are dropped or merged unshifted).
   * stdin: `ignore` and `format_generated_files = false` are not consulted for standard input.
   * the `skip::macros` / `skip::attributes` names of an out-of-line module file come from the
     crate root's inner attributes only (`formatFileCtx` has no other input).
@@ -181,8 +182,9 @@ theorem pushSkipped_defined_iff (src : List Char) (st : State) (attrHis : List N
 
 /-- After `push_skipped_with_span` the buffer is the old buffer, then what
 `format_missing_with_indent` wrote (`w`), then `trim` of the characters `src[lo..hi)`; `last_pos` is
-`hi`; `line_number` grew by the newlines written; one range was appended, `(lo', hi')` with `lo'`
-from source lines and `hi'` = new `line_number` + 1.  Nothing else changes. -/
+`hi`; `line_number` grew by the newlines written; one range was appended, `(lo', hi')` with `lo'` =
+(`line_number` after `w`) + 1 + the source-side offset of the main span inside the item, and
+`hi'` = new `line_number` + 1.  Nothing else changes. -/
 theorem pushSkipped_verbatim {src : List Char} {st st' : State} {attrHis : List Nat}
     {lo hi mainLo : Nat} {w : List Char}
     (h : pushSkipped src st attrHis lo hi mainLo w = some st') :
@@ -191,7 +193,9 @@ theorem pushSkipped_verbatim {src : List Char} {st st' : State} {attrHis : List 
       st'.lastPos = hi ∧
       st'.lineNumber = st.lineNumber + countNl w + countNl (trim sn) ∧
       st'.skipped = st.skipped ++
-        [(min (attrsEnd src attrHis + 1) (lineOf src mainLo), st'.lineNumber + 1)] := by
+        [(st.lineNumber + countNl w + 1 +
+            (min (attrsEnd src attrHis + 1) (lineOf src mainLo) - lineOf src lo),
+          st'.lineNumber + 1)] := by
   obtain ⟨sn, h1, -, h2, h3, h4, h5⟩ := pushSkipped_spec h
   exact ⟨sn, h1, h2, h3, h4, h5⟩
 
@@ -270,72 +274,87 @@ theorem clearBuffer_invariant_counterexample :
 
 /-! ## The recorded range of skipped lines -/
 
-/-- Under the invariant, the recorded `hi` is always the last line (1-based, in this visitor's
-buffer) of the copied text; the recorded `lo` is `min(attrs_end + 1, line_of(main_span.lo))`, both
-in *source* lines. -/
-theorem skipped_range_hi_exact {src : List Char} {st st' : State} {attrHis : List Nat}
+/-- Under the invariant, the recorded pair is, in 1-based lines of this visitor's buffer: the first
+line of the copied text plus `min(attrs_end + 1, line_of(main_span.lo)) - line_of(item_span.lo)`
+(source lines, truncated subtraction = `saturating_sub`), and the last line of the copied text. -/
+theorem skipped_range_exact {src : List Char} {st st' : State} {attrHis : List Nat}
     {lo hi mainLo : Nat} {w : List Char}
     (h : pushSkipped src st attrHis lo hi mainLo w = some st') (hinv : st.Inv) :
     ∃ sn, snippet src lo hi = some sn ∧
       st'.skipped = st.skipped ++
-        [(min (attrsEnd src attrHis + 1) (lineOf src mainLo),
+        [((outLines (st.buffer ++ w) (trim sn)).1 +
+            (min (attrsEnd src attrHis + 1) (lineOf src mainLo) - lineOf src lo),
           (outLines (st.buffer ++ w) (trim sn)).2)] :=
   pushSkipped_range h hinv
 
-/-- The recorded range is exactly the first and last buffer line of the copied text when
-(i) the span handed over is the whole node with its attributes (`main_span = item_span`, the item
-case), (ii) some attribute ends at or after the span's start (true for any attribute inside the
-span; the callers only come here when `contains_skip(attrs)`), and (iii) the text did not move:
-the buffer, after the missing text `w` was written, has as many newlines as the source has before
-the span.  (iii) is the hypothesis the code does not have (F2). -/
-theorem skipped_range_recorded_partial {src : List Char} {st st' : State} {attrHis : List Nat}
+/-- When the span handed over is the whole node with its attributes (`main_span = item_span`: items,
+assoc items) the recorded range is exactly the first and last buffer line of the copied text —
+whether or not the text moved and whatever the attributes are.  (Before /repo ed625bc this needed
+"the text did not move", F2.) -/
+theorem skipped_range_recorded {src : List Char} {st st' : State} {attrHis : List Nat}
     {lo hi : Nat} {w : List Char}
-    (h : pushSkipped src st attrHis lo hi lo w = some st') (hinv : st.Inv)
-    (hattr : ∃ a ∈ attrHis, lo ≤ a)
-    (hstay : countNl (st.buffer ++ w) = countNl (src.take lo)) :
+    (h : pushSkipped src st attrHis lo hi lo w = some st') (hinv : st.Inv) :
     ∃ sn, snippet src lo hi = some sn ∧
       st'.skipped = st.skipped ++ [outLines (st.buffer ++ w) (trim sn)] :=
-  pushSkipped_range_unmoved h hinv hattr hstay
+  pushSkipped_range_item h hinv
+
+/-- Statements (`main_span` = the statement without its attributes, inside `item_span`): for a
+span that `trim` leaves alone, the recorded range starts somewhere inside the copied text's lines
+(the attribute lines before it are left out) and ends on its last line. -/
+theorem skipped_range_within {src : List Char} {st st' : State} {attrHis : List Nat}
+    {lo hi mainLo : Nat} {w sn : List Char}
+    (h : pushSkipped src st attrHis lo hi mainLo w = some st') (hinv : st.Inv)
+    (hsn : snippet src lo hi = some sn) (htrim : trim sn = sn) (hm : mainLo ≤ hi) :
+    ∃ a, st'.skipped = st.skipped ++ [(a, (outLines (st.buffer ++ w) sn).2)] ∧
+      (outLines (st.buffer ++ w) sn).1 ≤ a ∧ a ≤ (outLines (st.buffer ++ w) sn).2 :=
+  pushSkipped_range_within h hinv hsn htrim hm
 
 /-- `outLines pre s` = (line on which `s` starts, line on which `s` ends) in `pre ++ s`, 1-based. -/
 theorem outLines_def (pre s : List Char) :
     outLines pre s = (countNl pre + 1, countNl (pre ++ s) + 1) := by
   simp [outLines, countNl_append]
 
-/-- Non-vacuity: a skipped `fn` on source lines 2–3 after one unchanged line; recorded `(2, 3)`. -/
+/-- Non-vacuity: a skipped `fn` on lines 2–3 after one line; recorded `(2, 3)`.  And a skipped
+`let` whose attribute is on its own line: the copied text is on lines 2–3, recorded `(3, 3)`. -/
 example :
     let src := "a;\n#[s]\nfn f(){}".toList
     let st : State := ⟨"a;".toList, 2, 0, []⟩
-    st.Inv ∧ (∃ a ∈ [7], 3 ≤ a) ∧ countNl (st.buffer ++ ['\n']) = countNl (src.take 3) ∧
-    (pushSkipped src st [7] 3 16 3 ['\n']).map (·.skipped) = some [(2, 3)] := by
+    st.Inv ∧ (pushSkipped src st [7] 3 16 3 ['\n']).map (·.skipped) = some [(2, 3)] := by
   decide
 
-/-- F2.  Three blank lines at the top of the file are dropped, so the skipped item moves from
-source lines 4–6 to output lines 1–3; the recorded range is `(4, 3)` — empty — and the trailing
-whitespace inside the skipped item is reported (reproduced on the binary: exit 1,
-"left behind trailing whitespace"). -/
-theorem skipped_range_moved_counterexample :
+example :
+    let src := "a;\n#[s]\nlet  x;".toList
+    let st : State := ⟨"a;".toList, 2, 0, []⟩
+    st.Inv ∧ snippet src 3 15 = some "#[s]\nlet  x;".toList ∧ trim "#[s]\nlet  x;".toList = "#[s]\nlet  x;".toList ∧
+    (pushSkipped src st [7] 3 15 8 ['\n']).map (·.skipped) = some [(3, 3)] := by
+  decide
+
+/-- The former F2 reproduction is cured: three blank lines at the top of the file are dropped, the
+skipped item moves from source lines 4–6 to output lines 1–3, and `(1, 3)` is recorded (the code
+before ed625bc recorded `(4, 3)`). -/
+theorem skipped_range_moved_cured :
     let src := "\n\n\n#[s]\nfn  f( ) {   \n}\n".toList
     let st := State.init 0
     st.Inv ∧
     (snippet src 3 23).map (fun sn => outLines (st.buffer ++ []) (trim sn)) = some (1, 3) ∧
-    (pushSkipped src st [7] 3 23 3 []).map (·.skipped) = some [(4, 3)] := by
+    (pushSkipped src st [7] 3 23 3 []).map (·.skipped) = some [(1, 3)] := by
   decide
 
-/-- F2, second form.  The text does not move at all, but the visitor is a *nested* one (the body
-of an `impl` is formatted by `FmtVisitor::from_context`, whose `line_number` starts at 0 where the
-`impl` starts): the method is on source (and final output) lines 5–6, the nested buffer has it on
-its lines 3–4, the recorded range is `(5, 4)` — empty (reproduced on the binary: an unmoved
-`#[rustfmt::skip]` method with trailing whitespace inside an `impl` that does not start on line 1
-is reported). -/
+/-- What remains of F2.  The recorded lines are lines of *this visitor's buffer*.  A nested visitor
+(the body of an `impl` is formatted by `FmtVisitor::from_context`, whose `line_number` starts at 0
+where the `impl` body starts) records `(3, 4)` for a method that is on lines 5–6 of the file (the
+text does not move: source line = final output line = `lineOf src 54`).  The nested ranges are
+not translated to file lines: for `impl`/`trait` bodies the nested visitor's `skipped_range` is a
+fresh vector that is dropped, for blocks (`rewrite_block_inner`) it is appended to the parent's as
+it is. -/
 theorem skipped_range_subvisitor_counterexample :
     let src := "struct S;\nstruct T;\nimpl S {\n    #[rustfmt::skip]\n    fn  f( ) {   \n    }\n}\n".toList
     let st := State.init 28                                   -- just after `impl S {`
     let w := "\n    #[rustfmt::skip]\n    ".toList              -- what format_missing_with_indent writes
     st.Inv ∧
     snippet src 54 73 = some "fn  f( ) {   \n    }".toList ∧
-    lineOf src 54 = 5 ∧
-    (pushSkipped src st [49] 54 73 54 w).map (·.skipped) = some [(5, 4)] := by
+    lineOf src 54 = 5 ∧ lineOf src 73 = 6 ∧
+    (pushSkipped src st [49] 54 73 54 w).map (·.skipped) = some [(3, 4)] := by
   decide
 
 /-! ## Whole-file opt-outs -/
